@@ -25,6 +25,9 @@ THEOREMS = [
     "Ebv.C09.hashvar_py_to_prog", "Ebv.C09.hashvar_prog_to_py", "Ebv.C09.hashvar_fixed_roundtrip",
     "Ebv.C09.refinement", "Ebv.C09.pop_deletes", "Ebv.C09.lookup_absent_else", "Ebv.C09.lookup_present_found",
     "Ebv.C09.sysStep_other", "Ebv.C09.instances_independent", "Ebv.C09.restart_fresh", "Ebv.C09.sys_refinement",
+    "Ebv.C09.modObj_other", "Ebv.C09.pStep_vals_prefix", "Ebv.C09.pStep_keys_prefix", "Ebv.C09.kept_stable", "Ebv.C09.kept_keys_stable",
+    "Ebv.C09.modVal_only_target", "Ebv.C09.kept_ops_leave_maps", "Ebv.C09.pStep_sys", "Ebv.C09.kept_is_reported",
+    "Ebv.C09.kept_keys_reported", "Ebv.C09.store_is_set",
 ]
 TRUSTED = ["hand-written model Ebv.HashVars (Structure/Member layout, Dict stack offsets, both sides' member access, TheDict operations, hash "
            "variables), tied by exact correspondence of every observable (offsets, outcomes, values read on either side) with the real classes and "
@@ -35,13 +38,18 @@ ASSUMPTIONS = ["program-side operands fit the member / variable format (a store 
                "member formats b B h H i I q Q (Member('x') cannot be packed from Python at all); hash variable formats the same plus x",
                "Dict(lru=False); flags ANY/NOEXIST/EXIST; at most 255 hash variables (pack('B', ordinal))",
                "temporaries of the generated code stay below the Dict's key/value images on the stack (C04)",
-               "several programs: instances of the declaring class and of a derived class (with inherited hash variables)"]
+               "several programs: instances of the declaring class and of a derived class (with inherited hash variables)",
+               "a member assignment on a Python-side Structure that raises struct.error leaves the member zero (CPython's pack_into clears the "
+               "target before converting): modelled as observed; the oracle takes the object as it then is"]
 RULE = ("declarations: 0..3 local variables before the Dict, 0..5 hash variables (formats bBhHiIqQ, 8% fixed-point x with |scaled value| < 2^45; defaults at the format's edges), Key/Value with "
         "1..5 packed members (5% deliberately unpacked -> AssembleError), capacity 1..6; 4..30 operations from both sides over a pool of 1..5 keys "
         "(python set/get/del/pop/iter, program update with ANY/NOEXIST/EXIST, lookup, modify-in-place, constant insert, hash variable get/set/add from "
         "both sides, reload); 40% of the cases spread the operations over 2..3 live programs of the same class (second instances created and "
         "loaded in the middle of the sequence, 0..2 restarts of any program with the old object kept alive, shared key pool; without hash "
-        "variables a quarter of the extra programs are instances of a derived class); non-trivial = a value crossed from one side to the other")
+        "variables a quarter of the extra programs are instances of a derived class); Python keeps every object a table hands out (the Values of "
+        "table[k] and pop(k), all keys of list(table)) over the rest of the sequence: they are looked at again in the middle and at the end "
+        "(recheck), members of kept objects are assigned (5% values that do not fit) and kept values are stored again under some key of some "
+        "program; non-trivial = a value crossed from one side to the other")
 
 FIXED_BASE = 100000
 SIGNED = "bhiqx"
@@ -114,8 +122,23 @@ def gen(rng):
             else:
                 ops.append([kind, i])
             continue
-        kind = rng.choice(["py_set", "py_set", "py_get", "py_del", "py_pop", "py_iter", "pr_update", "pr_update", "pr_lookup",
-                           "pr_lookup", "pr_modify", "pr_const"])
+        kind = rng.choice(["py_set", "py_set", "py_get", "py_get", "py_del", "py_pop", "py_iter", "pr_update", "pr_update", "pr_lookup",
+                           "pr_lookup", "pr_modify", "pr_const", "recheck", "py_mod", "py_store"])
+        if kind == "recheck":          # Python looks again at every object it got from the table so far
+            ops.append([kind])
+            continue
+        if kind == "py_mod":           # ... changes a member of one of them (object number modulo how many there are)
+            side = rng.choice("vvk")
+            fs = value if side == "v" else key
+            m = rng.randrange(len(fs))
+            x = rng_val(rng, fs[m])
+            if rng.random() < 0.05:
+                x += 1 << (8 * struct.calcsize(fs[m]))
+            ops.append([kind, side, rng.randrange(6), m, x])
+            continue
+        if kind == "py_store":         # ... or stores a value object it kept under some key
+            ops.append([kind, k, rng.randrange(6)])
+            continue
         if rng.random() < 0.04 and kind.startswith("py"):
             j = rng.randrange(len(key))
             k[j] = k[j] + (1 << (8 * struct.calcsize(key[j])))          # does not fit: struct.error
@@ -133,7 +156,7 @@ def gen(rng):
             ops.append([kind])
         else:
             ops.append([kind, k])
-    case["ops"] = several(rng, ops, bool(vs)) if rng.random() < 0.4 else ops
+    case["ops"] = (several(rng, ops, bool(vs)) if rng.random() < 0.4 else ops) + [["recheck"]]
     return case
 
 
@@ -255,6 +278,7 @@ class Impl:
         self.e = self.cls(ProgType.XDP, "GPL")
         self.insts, self.old, self.derived = {0: self.e}, [], None
         self.crossed = False
+        self.vals, self.keys = [], []          # the objects the table handed to Python, kept alive
 
     def new(self, j, derived=False):
         """create and load program j (again); the previous object of that number stays alive"""
@@ -278,6 +302,12 @@ class Impl:
         ko = ",".join(str(self.Key.__dict__[f"m{j}"].relative_addr) for j in range(len(self.case["key"])))
         vo = ",".join(str(self.Value.__dict__[f"m{j}"].relative_addr) for j in range(len(self.case["value"])))
         return f"key@{d.key_offset} value@{d.value_offset} K={self.Key.stack} V={self.Value.stack} koff={ko} voff={vo}"
+
+    def show_val(self, v):
+        return show([getattr(v, f"m{j}") for j in range(len(self.case["value"]))])
+
+    def show_key(self, k):
+        return show([getattr(k, f"m{j}") for j in range(len(self.case["key"]))])
 
     def raw(self, name):
         """the 8 bytes of an array-map variable, as a signed integer (no float conversion for x)"""
@@ -314,15 +344,32 @@ class Impl:
                 return "ok"
             if kind == "py_get":
                 v = e.tbl[c10.fill(self.Key(), o[1])]
-                return "value " + show([getattr(v, f"m{j}") for j in range(len(case["value"]))])
+                self.vals.append(v)
+                return "value " + self.show_val(v)
             if kind == "py_del":
                 del e.tbl[c10.fill(self.Key(), o[1])]
                 return "ok"
             if kind == "py_pop":
                 v = e.tbl.pop(c10.fill(self.Key(), o[1]))
-                return "value " + show([getattr(v, f"m{j}") for j in range(len(case["value"]))])
+                self.vals.append(v)
+                return "value " + self.show_val(v)
             if kind == "py_iter":
-                return "keys " + " ".join(show([getattr(k, f"m{j}") for j in range(len(case["key"]))]) for k in e.tbl)
+                ks = list(e.tbl)               # all keys first, then they are looked at
+                self.keys.extend(ks)
+                return "keys " + " ".join(self.show_key(k) for k in ks)
+            if kind == "recheck":
+                return "held V:" + ";".join(self.show_val(v) for v in self.vals) + " K:" + ";".join(self.show_key(k) for k in self.keys)
+            if kind == "py_mod":
+                objs = self.vals if o[1] == "v" else self.keys
+                if not objs:
+                    return "none"
+                setattr(objs[o[2] % len(objs)], f"m{o[3]}", o[4])
+                return "ok"
+            if kind == "py_store":
+                if not self.vals:
+                    return "none"
+                e.tbl[c10.fill(self.Key(), o[1])] = self.vals[o[2] % len(self.vals)]
+                return "ok"
             if kind == "hv_load":
                 self.cls.__dict__["hmap"].load(e)
                 return "ok"
@@ -334,7 +381,7 @@ class Impl:
                 return "ok"
         except Exception as ex:
             return {"key-error": "key-error", "struct-error": "struct-error", "runtime-error": "runtime-error",
-                    "index-error": "full" if kind == "py_set" else "index-error"}.get(c10.exc_name(ex), c10.exc_name(ex))
+                    "index-error": "full" if kind in ("py_set", "py_store") else "index-error"}.get(c10.exc_name(ex), c10.exc_name(ex))
         # program side
         nk, nv = len(case["key"]), len(case["value"])
         if kind in ("pr_update", "pr_lookup", "pr_modify"):
@@ -452,6 +499,70 @@ class Shadow:
         return f"value {self.hv[i]}", cls
 
 
+def parse_tuple(t):
+    return tuple(int(x) for x in t.strip("()").split(",")) if t.strip("()") else ()
+
+
+class Kept:
+    """what the property says about the objects Python keeps: an object got from the table is a value of its own - it
+    goes on showing the members it showed when Python got it (that they were the entry's members is judged there),
+    changed only by Python's own assignments to it, whatever is done with any table in between"""
+
+    def __init__(self, case):
+        self.case, self.vals, self.keys = case, [], []
+
+    def took(self, o, got):
+        if o[0] in ("py_get", "py_pop") and got.startswith("value "):
+            self.vals.append(parse_tuple(got[6:]))
+        if o[0] == "py_iter" and got.startswith("keys"):
+            self.keys.extend(parse_tuple(t) for t in got[5:].split())
+
+    def expect(self, o, shadow):
+        """expected outcome of an operation on kept objects"""
+        if o[0] == "recheck":
+            return "held V:" + ";".join(show(v) for v in self.vals) + " K:" + ";".join(show(k) for k in self.keys)
+        if o[0] == "py_mod":
+            objs, fs = (self.vals, self.case["value"]) if o[1] == "v" else (self.keys, self.case["key"])
+            if not objs:
+                return "none"
+            if not fits(fs[o[3]], o[4]):      # the assignment raises; what the member holds afterwards is Python's business
+                self.undetermined = (o[1], o[2] % len(objs))      # (struct.pack_into clears it): the object is looked at anew
+                return "struct-error"
+            n = o[2] % len(objs)
+            objs[n] = objs[n][:o[3]] + (o[4],) + objs[n][o[3] + 1:]
+            return "ok"
+        if o[0] == "py_store":
+            if not self.vals:
+                return "none"
+            return shadow.expect(None, ["py_set", o[1], list(self.vals[o[2] % len(self.vals)])])[0]
+
+
+def judge_kept(ctx, case, imp, kept, sh, o, got, idx):
+    kept.undetermined = None
+    exp = kept.expect(o, sh)
+    if kept.undetermined and got == exp:
+        side, n = kept.undetermined
+        if side == "v":
+            kept.vals[n] = parse_tuple(imp.show_val(imp.vals[n]))
+        else:
+            kept.keys[n] = parse_tuple(imp.show_key(imp.keys[n]))
+    if sh.dead and o[0] == "py_store":
+        return
+    if got != exp:
+        if o[0] == "recheck":          # judged once: from now on the objects are taken as they are
+            try:
+                v, k = got[len("held V:"):].split(" K:")
+                kept.vals = [parse_tuple(t) for t in v.split(";") if t]
+                kept.keys = [parse_tuple(t) for t in k.split(";") if t]
+            except ValueError:
+                pass
+        elif o[0] == "py_store":
+            sh.dead = True
+        what = ("an object Python got from the table no longer shows the members it was handed out with" if o[0] == "recheck"
+                else f"operation {idx} {o[0]}")
+        ctx.require(False, f"{what}: the property expects '{exp}'", case, got, None)
+
+
 def judge(ctx, case, imp, sh, o, got, idx):
     hv = o[0].startswith("hv_")
     if (sh.dead and not hv) or (hv and len(o) > 1 and o[1] in sh.tainted):
@@ -518,6 +629,7 @@ def run_case(ctx, case, real_kernel=False):
         ctx.require(False, "load() raised", case, lres, None)
     with (c10.emulated(K) if K is not None else _null()):
         shadows = {0: sh}
+        kept = Kept(case)
         for idx, o in enumerate(case["ops"]):
             if o[0] == "new":
                 got = imp.new(o[1], len(o) > 2 and o[2] == "sub")
@@ -533,10 +645,13 @@ def run_case(ctx, case, real_kernel=False):
             imp.on(j)
             got = imp.op(o)
             outs.append(got)
-            if ctx is not None:
+            if ctx is not None and o[0] in ("recheck", "py_mod", "py_store"):
+                judge_kept(ctx, case, imp, kept, shadows[j], o, got, idx if j == 0 else f"{idx} (program {j})")
+            elif ctx is not None:
                 if o[0].startswith("pr_") or o[0].startswith("hv_pr"):
                     imp.crossed = True
                 judge(ctx, case, imp, shadows[j], o, got, idx if j == 0 else f"{idx} (program {j})")
+                kept.took(o, got)
     if K is not None and K.violation and ctx is not None:
         ctx.require(False, "buffer overrun under the emulated kernel (C10)", case, K.violation, "overrun")
     return outs, imp
@@ -578,7 +693,13 @@ def kernel_validation(ctx, cases):
                 pass
         done += 1
 
-        def norm(x):
+        modk = any((o[2] if o[0] == "on" else o)[:2] == ["py_mod", "k"] for o in case["ops"])
+
+        def norm(x):      # the kernel's iteration order is not the emulation's: keys as sets; kept keys too (which kept key a
+            # `py_mod k` hits then depends on that order: the kept keys are not compared in such cases)
+            if x.startswith("held V:"):
+                v, k = x.split(" K:")
+                return v + " K:" + ("?" if modk else ";".join(sorted(k.split(";"))))
             return " ".join(sorted(x.split()[1:])) if x.startswith("keys") else x
         if [norm(x) for x in emu] == [norm(x) for x in real]:
             same += 1
@@ -679,7 +800,11 @@ LEVEL_TEXT = ("Lean 4 proofs over a hand-written model: Structure members occupy
               "in both directions. With any number of live programs (instances of one class, restarts) every program makes exactly the observations "
               "of a run of its own operations alone (instances_independent), a program created again starts with an empty Dict and default "
               "variables and changes no other program (restart_fresh), and the whole system refines one abstract dictionary per program "
-              "(sys_refinement). Tie: exact correspondence of offsets and of every "
+              "(sys_refinement). The objects Python keeps from lookups, pops and iterations are values of their own: over any sequence of "
+              "operations on any program a kept object stays the same bytes unless it is itself assigned to (kept_stable, kept_keys_stable, "
+              "modVal_only_target), looking at or changing kept objects does nothing to any map (kept_ops_leave_maps), a kept object shows what the "
+              "operation reported (kept_is_reported) and storing it is table[k] = the members it shows (store_is_set). "
+              "Tie: exact correspondence of offsets and of every "
               "outcome with the real classes and the real generated program run in the interpreter over an emulated kernel shared with the Python side.")
 LEVEL_NOTE = ("trusted: Lean kernel + standard axioms (one non-vacuity example uses decide +kernel); hand model validated by differential runs; hash-map "
               "helper semantics and the emulated kernel modelled (thorough tier validates them against the real kernel where bpf() works: real program "
